@@ -165,8 +165,13 @@ type NoCache struct {
 	Fields      []string // canonical field names of qualified occurrences
 }
 
-func (c CC) NoCacheResp() NoCache {
-	var n NoCache
+func (c CC) NoCacheResp() (n NoCache) {
+	defer func() {
+		// both forms in one field: which one wins is debatable - no verdict
+		if n.Unqualified && len(n.Fields) > 0 {
+			n.Unqualified, n.Fields = false, nil
+		}
+	}()
 	for _, d := range c.All("no-cache") {
 		n.Present = true
 		if !d.HasArg || strings.TrimSpace(d.Arg) == "" {
